@@ -217,7 +217,12 @@ def run(repo, rep, tier):
             if not ok:
                 rep.finding("R1.2", add, add.node, "the result's `entries` is not `self.entries + other.entries`", stmt="entries formula")
         # ---------------- R1.3
-        for fld in m.nan_fields:
+        if c.name in ("Average", "Deviate"):
+            nan_table(repo, rep, r3, c, m, add)
+            continue_r13 = False
+        else:
+            continue_r13 = True
+        for fld in (m.nan_fields if continue_r13 else []):
             ok, why, node = nan_discipline(repo, c, add, fld)
             r3.ob(ok, f"{c.name}.__add__: NaN field {fld}: {why}")
             if not ok:
@@ -404,6 +409,74 @@ def associativity(repo, rep, r7, c, m, add):
             rep.finding("R1.7", add, add.node, f"the combining expression of `{fld}` is not associative: composing the merge with itself, "
                         f"(a + b) + c gives {left[fld]!r} but a + (b + c) gives {right[fld]!r}; the grouping of partial results "
                         f"would change the aggregate", stmt=f"{fld}: not associative")
+
+
+def nan_table(repo, rep, r3, c, m, add):
+    """R1.3 for the mean/variance leaves, decided on IEEE classes: a float-class interpretation of __add__ over all pairs of operand
+    states (empty | finite | +inf | -inf | NaN mean) must give the class that merging those data has: an empty side is ignored
+    (its NaN placeholders never reach the result), a NaN mean of a NON-empty side poisons, opposite infinities give NaN."""
+    from .. import fclass as fc
+    from .c02 import want_mean_class
+
+    sn, on = add.params
+    states = ["empty", "finite", "+inf", "-inf", "nan"]
+    cls_of = {"finite": fc.fin(), "+inf": fc.PINF, "-inf": fc.NINF, "nan": fc.NAN}
+    has_var = "varianceTimesEntries" in m.acc
+
+    def put(env, who, st):
+        if st == "empty":
+            env[f"{who}.entries"] = fc.fin(0)
+            env[f"{who}.mean"] = fc.NAN
+            env[f"{who}.varianceTimesEntries"] = fc.NAN
+        else:
+            env[f"{who}.entries"] = fc.fin(1)
+            env[f"{who}.mean"] = cls_of[st]
+            env[f"{who}.varianceTimesEntries"] = fc.fin() if st == "finite" else fc.NAN
+
+    for sa in states:
+        for sb in states:
+            env = {}
+            put(env, sn, sa)
+            put(env, on, sb)
+            it = fc.Interp(repo, c, ["entries", "mean", "varianceTimesEntries"], calls={c.name: ("obj", "new")})
+            try:
+                paths = it.run(add, env)
+            except fc.Unsupported as e:
+                raise AnalysisError(f"{add.construct}: float-class interpretation failed: {e}")
+            if sa == "empty" and sb == "empty":
+                wm, wv = "nan", "nan"
+            elif sa == "empty":
+                wm, wv = sb, ("finite" if sb == "finite" else "nan")
+            elif sb == "empty":
+                wm, wv = sa, ("finite" if sa == "finite" else "nan")
+            else:
+                wm = want_mean_class(sa, sb)
+                wv = "finite" if (sa == "finite" and sb == "finite") else "nan"
+            for pth in paths:
+                if pth.outcome == "raise":
+                    continue
+                outs = [k for k in pth.env if k.endswith(".mean") and not k.startswith(sn + ".") and not k.startswith(on + ".")]
+                if not outs:
+                    r3.ob(False)
+                    rep.finding("R1.3", add, add.node, f"{c.name}.__add__ ({sa} + {sb}): the result's `mean` is never set", stmt=f"mean unset: {sa}+{sb}")
+                    continue
+                got = pth.env[outs[0]]
+                ok = isinstance(got, fc.FV) and got.label == wm
+                r3.ob(ok, f"{c.name}.__add__: mean {sa} + {sb} -> {getattr(got, 'label', got)}")
+                if not ok:
+                    rep.finding("R1.3", add, add.node, f"{c.name}.__add__ of a {'n empty' if sa == 'empty' else sa + '-mean'} aggregator and a "
+                                f"{'n empty' if sb == 'empty' else sb + '-mean'} aggregator gives `mean` {getattr(got, 'label', got)} (branches taken at lines "
+                                f"{[ln for ln, b in pth.trail if b]}); merging those data gives {wm}"
+                                + (": the NaN placeholder of the empty side poisons the result (zero() is not an identity for +)" if "empty" in (sa, sb) else ""),
+                                stmt=f"mean: {sa}+{sb} -> {getattr(got, 'label', got)}")
+                if has_var:
+                    vk = outs[0][:-len("mean")] + "varianceTimesEntries"
+                    gv = pth.env.get(vk)
+                    okv = isinstance(gv, fc.FV) and gv.label == wv
+                    r3.ob(okv, f"{c.name}.__add__: variance {sa} + {sb} -> {getattr(gv, 'label', gv)}")
+                    if not okv:
+                        rep.finding("R1.3", add, add.node, f"{c.name}.__add__ ({sa} + {sb}) gives `varianceTimesEntries` {getattr(gv, 'label', gv)}; "
+                                    f"merging those data gives {wv}", stmt=f"variance: {sa}+{sb} -> {getattr(gv, 'label', gv)}")
 
 
 def nan_discipline(repo, c, add, fld):
